@@ -155,14 +155,14 @@ func genC14(t *rapid.T) C14Case {
 	// restore plain endpoints, then draw the IdP URL for this flow
 	c := C14Case{Flow: rapid.SampledFrom([]string{"BuildAuthURL", "BuildAuthURLFromDocument", "BuildAuthURLRedirect", "BuildLogoutURLRedirect", "AuthRedirect"}).Draw(t, "flow")}
 	c.BaseURL = rapid.SampledFrom([]string{"https", "http"}).Draw(t, "scheme") + "://" + rapid.SampledFrom([]string{"idp.example.com", "idp.example.com:8443", "192.0.2.7", "login.example.org:80"}).Draw(t, "host") +
-		rapid.SampledFrom([]string{"", "/", "/sso", "/saml2/idp/SSO.php", "/a/b/c~d_e-f.g"}).Draw(t, "path")
+		rapid.SampledFrom([]string{"", "/", "/sso", "/saml2/idp/SSO.php", "/a/b/c~d_e-f.g", "/saml/tenant%2Fa/sso", "/a%41b/x%7Ey", "/p%2Bq%3Br%2Cs%40t%3Au", "/caf%C3%A9/a%20b", "/a;v=1/b", "//double//slash/", "/dot/./seg/../x"}).Draw(t, "path")
 	nq := rapid.IntRange(0, 3).Draw(t, "nQuery")
 	for i := 0; i < nq; i++ {
 		k := rapid.SampledFrom([]string{"tenant", "idpid", "x", "spentityid", "a b", "k&k", "zz", "Sig", "DefaultRelayState", "PreferredSigAlg", "IdPSAMLRequest", "xRelayState", "ASigAlg", "1SAMLRequest", "RelayState2", "Signature2", "samlrequest"}).Draw(t, "qk")
 		c.Query = append(c.Query, KV{k, rapid.OneOf(rapid.SampledFrom([]string{"", "1", "a b", "a+b", "x&y=z", "100%", "é"}), h.GenText(h.TextOpts{MaxLen: 3})).Draw(t, "qv")})
 	}
 	if rapid.IntRange(0, 3).Draw(t, "fragment") == 0 {
-		c.Fragment = rapid.SampledFrom([]string{"top", "a-b"}).Draw(t, "frag")
+		c.Fragment = rapid.SampledFrom([]string{"top", "a-b", "x%2Fy", "a%20b"}).Draw(t, "frag")
 	}
 	full := c.fullURL()
 	sp.IdPSSO, sp.IdPSLO = "https://unused.example/sso", "https://unused.example/slo"
@@ -284,7 +284,8 @@ func checkC14(c C14Case) h.Outcome {
 		o.Violation = h.V("url-unparsable", "%v", err)
 		return o
 	}
-	if gu.Scheme != want.Scheme || gu.Host != want.Host || gu.Path != want.Path || gu.Fragment != want.Fragment {
+	// compared in ESCAPED form: "/tenant%2Fa/sso" and "/tenant/a/sso" are different resources
+	if gu.Scheme != want.Scheme || gu.Host != want.Host || gu.Path != want.Path || gu.Fragment != want.Fragment || gu.EscapedPath() != want.EscapedPath() || gu.EscapedFragment() != want.EscapedFragment() {
 		o.Violation = h.V("endpoint-changed", "endpoint %s://%s%s#%s became %s://%s%s#%s", want.Scheme, want.Host, want.Path, want.Fragment, gu.Scheme, gu.Host, gu.Path, gu.Fragment)
 		return o
 	}
